@@ -667,7 +667,23 @@ func shrinkC13(planJSON []byte, v Violation, fails func([]byte) *Violation, budg
 	return best
 }
 
+func describeC13(plan []byte) string {
+	var pl C13Plan
+	if json.Unmarshal(plan, &pl) != nil {
+		return ""
+	}
+	ops := 0
+	for _, t := range pl.Tasks {
+		ops += len(t)
+	}
+	seq := "interleaving needed: schedule of " + fmt.Sprint(len(pl.Schedule)) + " recorded choices"
+	if len(pl.Schedule) == 0 && pl.After == "first" {
+		seq = "no interleaving needed: tasks run to completion one after the other (an earlier call is enough)"
+	}
+	return fmt.Sprintf("%d task(s), %d operation(s), map order %s, %s, %d recipe op(s)", len(pl.Tasks), ops, pl.MapOrder.Mode, seq, len(pl.Recipe.Ops))
+}
+
 func init() {
-	engines["C13"] = &Engine{ID: "C13", Gen: genC13, Run: runC13, Shrink: shrinkC13, CasesQuick: 420, InProcessShrink: false}
+	engines["C13"] = &Engine{ID: "C13", Gen: genC13, Run: runC13, Shrink: shrinkC13, Describe: describeC13, CasesQuick: 420, InProcessShrink: false}
 	raceLogInit()
 }
